@@ -383,6 +383,8 @@ func runC11(ctx *common.Ctx) error {
 	var lines []string
 	nextID := 0
 	severe := 0
+	// the case file is elaborated by Coq at ~30 us per byte: bound what goes to the model (the oracles still see everything)
+	modelBytes, modelBudget := 0, ctx.Budget(450_000, 1_500_000)
 	var batch []stream
 
 	emit := func(s stream, o outcome) {
@@ -393,9 +395,11 @@ func runC11(ctx *common.Ctx) error {
 		if s.Login {
 			data = append([]byte(loginLine), data...)
 		}
-		if len(data) > 20000 {
+		if len(data) > 20000 || modelBytes+len(data) > modelBudget {
+			res.Count("not-sent-to-model:size-budget")
 			return
 		}
+		modelBytes += len(data)
 		nextID++
 		obs := make([]string, len(o.Completions))
 		for i, cp := range o.Completions {
